@@ -5,6 +5,13 @@
 # prints the check's last lines, and resets the scratch repo worktree. /repo itself is never touched.
 set -e
 PATCH="$1"; PID="$2"; SEED="${3:-1}"
+# both scratch worktrees are created on demand (and may be removed at any time: `git worktree remove --force`)
+mkdir -p /tmp/mut /tmp/vw
+[ -d /tmp/mut/wt ] || git -C /repo worktree add -q --detach /tmp/mut/wt
+if [ ! -d /tmp/vw/mutcheck ]; then
+  git -C /verif worktree prune
+  git -C /verif worktree add -q /tmp/vw/mutcheck mutcheck 2>/dev/null || git -C /verif worktree add -q /tmp/vw/mutcheck -b mutcheck main
+fi
 git -C /tmp/mut/wt checkout -q --detach "$(git -C /repo rev-parse HEAD)"
 git -C /tmp/mut/wt checkout -q -- . && git -C /tmp/mut/wt clean -fdq
 cd /tmp/vw/mutcheck
